@@ -12,6 +12,7 @@ pub mod c13;
 pub mod c14;
 pub mod c15;
 pub mod c16;
+pub mod c17;
 pub mod c18;
 
 use crate::report::Tier;
@@ -34,6 +35,7 @@ pub fn run(id: &str, tier: &Tier, child: bool) -> Result<i32, String> {
         "C14" => c14::c14(tier),
         "C15" => c15::c15(tier),
         "C16" => c16::c16(tier, child),
+        "C17" => c17::c17(tier, child),
         "C18" => c18::c18(tier, child),
         "C05" => e2_checks::c05(tier),
         _ => Err(format!("no check registered for {}", id)),
